@@ -522,15 +522,15 @@ pub fn c03(big: bool) -> BoxedStrategy<Case> {
 
 pub fn c04(big: bool) -> BoxedStrategy<Case> {
     let max_ops = if big { 14 } else { 9 };
-    let base = OpWeights { stop: 7, halt: 4, try_stop: 5, await_: 7, drop: 0, give: 2, join: 3, consume: 2, max_sleep: 4, send: 28, call: 24, ping: 5, convert: 8, ..MSG_WEIGHTS };
+    let base = OpWeights { stop: 7, halt: 4, try_stop: 5, await_: 7, drop: 0, give: 2, join: 3, consume: 2, restart: 2, max_sleep: 4, send: 28, call: 24, ping: 5, convert: 8, ..MSG_WEIGHTS };
     let op = mixed_ops(base, vec![(8, msg_op(1, 1, ctx_work(3, 3, 0)))]);
     let spawn = prop_oneof![
         8 => plain_spawn(false),
-        1 => (mailbox(), 2u32..6, any::<bool>()).prop_map(|(mailbox, t, owning)| SpawnSpec::Build { mailbox, strategy: RStrat::Default, timeout: Some(t), fail_on_timeout: true, owning }),
+        2 => (mailbox(), 2u32..6, any::<bool>(), any::<bool>()).prop_map(|(mailbox, t, owning, fail_on_timeout)| SpawnSpec::Build { mailbox, strategy: RStrat::Default, timeout: Some(t), fail_on_timeout, owning }),
         2 => stream_spawn(),
     ];
     let op = mixed_ops_boxed(op, vec![(3, (any::<u8>(), 0u8..3).prop_map(|(stream, n)| ClientOp::Feed { stream, n }).boxed())]);
-    (spawn, 2usize..=4, (slow_callback(), prop_oneof![9 => Just(None), 1 => Just(Some((0u32, FailHow::Err)))]))
+    (spawn, 2usize..=4, (slow_callback(), prop_oneof![9 => Just(None), 1 => Just(Some((0u32, FailHow::Err))), 1 => Just(Some((1u32, FailHow::Err)))]))
         .prop_flat_map(move |(spawn, n, stopped)| {
             let owning = spawn.owning();
             (Just(spawn), Just(stopped), grants(n, owning, 3), vec(vec(op.clone(), 3..=max_ops), n..=n), schedule(if big { 96 } else { 48 }))
@@ -538,6 +538,13 @@ pub fn c04(big: bool) -> BoxedStrategy<Case> {
         .prop_map(|(spawn, (stopped, start_fail), grants, clients, schedule)| {
             // a stream-attached actor whose `finished` panics (one in four of them)
             let finish_panic = matches!(spawn, SpawnSpec::Stream { .. }) && schedule.len() % 4 == 1;
+            // a stopped() callback that takes longer than the handler timeout (which is about handlers)
+            let mut stopped = stopped;
+            if let Some((t, _)) = spawn.timeout() {
+                if stopped.iter().any(|s| matches!(s, Step::Sleep(_))) {
+                    stopped.push(Step::Sleep(t + 1));
+                }
+            }
             let mut c = Case {
                 family: Family::C04,
                 actors: one_actor(spawn, Behavior { stopped: stopped.clone(), finished: stopped, start_fail, ..Default::default() }),
@@ -581,6 +588,7 @@ pub fn c05(big: bool) -> BoxedStrategy<Case> {
                                 (8, (0u8..2, any::<bool>()).prop_map(|(topic, st)| ClientOp::Publish { how: if st { PubHow::Static } else { PubHow::ViaAddr }, topic, id: 0 }).boxed()),
                                 // only meaningful for a stream-attached actor (its stream never ends: the handles decide)
                                 (4, (any::<u8>(), 0u8..4).prop_map(|(stream, n)| ClientOp::Feed { stream, n }).boxed()),
+                                (1, (any::<u8>(), 90u8..140).prop_map(|(stream, n)| ClientOp::Feed { stream, n }).boxed()),
                                 (4, export_weak_op()),
                             ],
                         ),
@@ -1036,9 +1044,11 @@ pub fn c15(big: bool) -> BoxedStrategy<Case> {
         1 => Just(SpawnSpec::SpawnOwning),
         4 => (mailbox(), any::<bool>()).prop_map(|(mailbox, owning)| SpawnSpec::Build { mailbox, strategy: RStrat::Default, timeout: None, fail_on_timeout: false, owning }),
         1 => (mailbox(), any::<bool>()).prop_map(|(mailbox, owning)| SpawnSpec::Build { mailbox, strategy: RStrat::Recreate, timeout: None, fail_on_timeout: false, owning }),
+        1 => (mailbox(), any::<bool>()).prop_map(|(mailbox, owning)| SpawnSpec::Build { mailbox, strategy: RStrat::NonRestartable, timeout: None, fail_on_timeout: false, owning }),
+        1 => (mailbox(), any::<bool>(), 2u32..6).prop_map(|(mailbox, owning, t)| SpawnSpec::Build { mailbox, strategy: RStrat::Default, timeout: Some(t), fail_on_timeout: false, owning }),
     ];
     let base = OpWeights { send: 16, call: 16, ping: 2, convert: 22, yield_: 4, sleep: 14, give: 3, drop: 10, stop: 0, max_sleep: 10, ..MSG_WEIGHTS };
-    let op = mixed_ops(base, vec![(14, msg_op(1, 2, ctx_work(2, 1, 6))), (10, h().prop_map(|h| ClientOp::Upgrade { h }).boxed()), (6, export_weak_op())]);
+    let op = mixed_ops(base, vec![(14, msg_op(1, 2, ctx_work(2, 1, 6))), (10, h().prop_map(|h| ClientOp::Upgrade { h }).boxed()), (6, export_weak_op()), (3, (h(), 6u32..10).prop_map(|(h, d)| ClientOp::Send { h, work: vec![Step::Sleep(d)] }).boxed())]);
     let timers = prop_oneof![
         1 => Just(vec![]),
         3 => vec((1u32..=12).prop_map(|ticks| Step::AddTimer(TimerSpec { kind: TimerKind::Interval, ticks, work: vec![] })), 1..=2),
@@ -1071,7 +1081,9 @@ pub fn c15(big: bool) -> BoxedStrategy<Case> {
             }
             // a value recreated from Default behaves like the one it replaces (timers in started)
             let default_beh = vec![Behavior { started, ..Default::default() }];
-            finalize(Case { family: Family::C15, actors, default_beh, grants, clients, faults: vec![], schedule, settle: 0 })
+            let mut c = Case { family: Family::C15, actors, default_beh, grants, clients, faults: vec![], schedule, settle: 0 };
+            avoid_exact_timeout(&mut c);
+            finalize(c)
         })
         .boxed()
 }
@@ -1109,7 +1121,9 @@ pub fn c16(big: bool) -> BoxedStrategy<Case> {
                 let parent = cands[(psel as usize * cands.len()) >> 8];
                 depths.push(depths[parent] + 1);
                 let spawn = match mb {
+                    None if psel % 11 == 3 => SpawnSpec::Stream { builder: None, owning: false, timeout: None },
                     None => SpawnSpec::Spawn,
+                    Some(mailbox) if psel % 11 == 4 => SpawnSpec::Stream { builder: Some(mailbox), owning: false, timeout: None },
                     Some(mailbox) => SpawnSpec::Build { mailbox, strategy: RStrat::Default, timeout: None, fail_on_timeout: false, owning: false },
                 };
                 // some children run timers of their own (which must not keep them alive once released)
@@ -1200,7 +1214,12 @@ pub fn c08(big: bool) -> BoxedStrategy<Case> {
     let max_ops = if big { 7 } else { 5 };
     // handles come from the registry operations themselves
     let base = OpWeights { send: 3, call: 5, ping: 2, convert: 0, yield_: 8, sleep: 5, give: 0, drop: 4, stop: 30, halt: 8, try_stop: 0, await_: 3, max_sleep: 3, ..MSG_WEIGHTS };
-    let op = mixed_ops(base, vec![(48, reg_op(2, [12, 2, 5, 2, 2, 5, 4])), (8, msg_op(1, 1, ctx_work(1, 5, 0))), (6, h().prop_map(|h| ClientOp::RegisterHeld { h }).boxed())]);
+    // a service instance may also die of a panicking handler (an abnormal end nobody announces)
+    let crash = (h(), any::<bool>()).prop_map(|(h, call)| {
+        let work = vec![Step::Panic];
+        if call { ClientOp::Call { h, work } } else { ClientOp::Send { h, work } }
+    });
+    let op = mixed_ops(base, vec![(48, reg_op(2, [12, 2, 5, 2, 2, 5, 4])), (8, msg_op(1, 1, ctx_work(1, 5, 0))), (6, h().prop_map(|h| ClientOp::RegisterHeld { h }).boxed()), (5, crash.boxed())]);
     let nested = prop_oneof![6 => Just(false), 1 => Just(true)];
     let pre = prop_oneof![2 => Just(None), 1 => proptest::option::of(mailbox()).prop_map(Some)];
     (1usize..=4, nested, pre)
@@ -1321,7 +1340,12 @@ pub fn c06(big: bool) -> BoxedStrategy<Case> {
             (1, any::<u8>().prop_map(|stream| ClientOp::EndStream { stream }).boxed()),
         ],
     );
-    (t_spawn, started_with_timers(2), kids, any::<bool>(), 1usize..=3)
+    let started = prop_oneof![
+        5 => started_with_timers(2),
+        // a delayed task that is still running when T dies
+        1 => (1u32..=4, 5u32..=30).prop_map(|(ticks, d)| vec![Step::AddTimer(TimerSpec { kind: TimerKind::DelayedExec, ticks, work: vec![Step::Sleep(d)] })]),
+    ];
+    (t_spawn, started, kids, any::<bool>(), 1usize..=3)
         .prop_flat_map(move |(spawn, started, kids, bystander, n)| {
             (Just(spawn), Just(started), Just(kids), Just(bystander), vec(vec(op.clone(), 2..=max_ops), n..=n), vec(vec(grant_kind(1), 1..=2), n..=n), schedule(if big { 64 } else { 32 }))
         })
